@@ -33,6 +33,7 @@ func main() { mc.Main("C03", run) }
 
 // lpt is one member of the point alphabet on the library side.
 type lpt struct {
+	label  string // non-empty: the exported package-level OBJECT itself (pointer identity), not a representation built by the harness
 	e, rep int
 	P      *curve.EdwardsPoint
 	xonce  sync.Once
@@ -41,6 +42,13 @@ type lpt struct {
 	tbl    *curve.EdwardsBasepointTable
 	ronce  sync.Once
 	rx     *curve.ExpandedRistrettoPoint
+}
+
+func (p *lpt) repName() string {
+	if p.label != "" {
+		return p.label
+	}
+	return ptalph.RepName[p.rep]
 }
 
 func (p *lpt) expanded() *curve.ExpandedEdwardsPoint {
@@ -59,16 +67,17 @@ func (p *lpt) table() *curve.EdwardsBasepointTable {
 }
 
 type space struct {
-	c       *mc.Ctx
-	elems   []*ptalph.Elem
-	tors    []bool // reference: element outside the prime-order subgroup
-	pts     []*lpt // elems x reps, element-major
-	full    []*big.Int
-	scs     []*scalar.Scalar // library scalars for full
-	core    []int            // indices into full
-	isCore  []bool
-	mulc    [][]*ref.Point // [elem][scalar index] reference multiples (nil = not precomputed)
-	baseIdx int            // index of B in elems
+	c        *mc.Ctx
+	elems    []*ptalph.Elem
+	tors     []bool // reference: element outside the prime-order subgroup
+	pts      []*lpt // elems x reps, element-major
+	full     []*big.Int
+	scs      []*scalar.Scalar // library scalars for full
+	core     []int            // indices into full
+	isCore   []bool
+	mulc     [][]*ref.Point // [elem][scalar index] reference multiples (nil = not precomputed)
+	baseIdx  int            // index of B in elems
+	exported int            // s.pts[exported:] are the exported package-level objects themselves
 }
 
 func (s *space) refMul(e, si int) ref.Point {
@@ -209,6 +218,22 @@ func run(c *mc.Ctx) {
 		}
 		// [g9]B + T6 rescaled: even torsion component, so that it is also a valid ristretto representative
 		dirtyPoint = ptalph.Rep(c.Seed, dirtyRef, 4)
+		// The exported package-level objects THEMSELVES as operands (appended after the elements x representations block,
+		// which keeps its e*NumReps+rep layout): curve.EIGHT_TORSION[i] stands for [i]T1, ED25519_BASEPOINT_POINT for B.
+		// They are only ever read (aliasing cases work on copies).
+		byName := map[string]int{}
+		for i, e := range s.elems {
+			byName[e.Name] = i
+		}
+		for i := 0; i < 8; i++ {
+			n := fmt.Sprintf("T%d", i)
+			if i == 0 {
+				n = "O"
+			}
+			s.pts = append(s.pts, &lpt{label: fmt.Sprintf("curve.EIGHT_TORSION[%d] (the exported object)", i), e: byName[n], rep: 0, P: curve.EIGHT_TORSION[i]})
+		}
+		s.pts = append(s.pts, &lpt{label: "curve.ED25519_BASEPOINT_POINT (the exported object)", e: s.baseIdx, rep: 0, P: curve.ED25519_BASEPOINT_POINT})
+		s.exported = len(s.pts) - 9
 	}()
 	if buildPanic != nil {
 		c.Seq("alphabet", 1, func(w *mc.W, i int) {
@@ -253,7 +278,7 @@ func run(c *mc.Ctx) {
 	ne, np := len(s.elems), len(s.pts)
 	unred := func(si int) bool { return s.full[si].Cmp(ref.L) >= 0 }
 	special := func(e int) bool { return s.tors[e] || s.elems[e].IsIdentity() }
-	pname := func(p *lpt) string { return s.elems[p.e].Name + "/" + ptalph.RepName[p.rep] }
+	pname := func(p *lpt) string { return s.elems[p.e].Name + "/" + p.repName() }
 
 	// ---------------------------------------------------------------- (0) representations, unary operations, predicates
 	c.Par("reps", np, func(w *mc.W, i int) {
@@ -404,6 +429,7 @@ func run(c *mc.Ctx) {
 	lap("grouplaw")
 	// Sum of 0..3 terms over a sub-alphabet mixing elements and representations.
 	var sumAlpha []int
+	sumAlpha = append(sumAlpha, s.exported+5, s.exported+7, s.exported+8) // EIGHT_TORSION[5], [7] and ED25519_BASEPOINT_POINT themselves
 	for i := 0; i < np && len(sumAlpha) < c.Pick(14, 24); i += 2*ptalph.NumReps + 1 {
 		sumAlpha = append(sumAlpha, i)
 	}
@@ -543,6 +569,15 @@ func run(c *mc.Ctx) {
 			}
 		}
 	}
+	for ka, ai := range s.core { // the exported objects themselves as A
+		for kb, bi := range bset {
+			for x := s.exported; x < len(s.pts); x++ {
+				if c.Thorough || (ka+kb+x)%3 == 0 {
+					dCases = append(dCases, dcase{ai, bi, x})
+				}
+			}
+		}
+	}
 	c.Rep.Extra["double_b_alphabet"] = len(bset)
 	c.Par("double", len(dCases), func(w *mc.W, i int) {
 		k := dCases[i]
@@ -629,6 +664,45 @@ func run(c *mc.Ctx) {
 	})
 
 	lap("msm-small-ristretto")
+	// the exported *RistrettoPoint object itself as an operand of every ristretto routine
+	c.Par("exported-ristretto-basepoint", len(evenPts), func(w *mc.W, i int) {
+		q := s.pts[evenPts[i]]
+		G := curve.RISTRETTO_BASEPOINT_POINT
+		cas := map[string]string{"operand": "curve.RISTRETTO_BASEPOINT_POINT (the exported object)", "other": pname(q)}
+		d := func(op string) func() string {
+			return func() string { return op + " with RISTRETTO_BASEPOINT_POINT and " + pname(q) }
+		}
+		Q := s.elems[q.e].P
+		ai, bi := s.core[(3*i)%len(s.core)], s.core[(5*i+1)%len(s.core)]
+		unchanged(w, "RistrettoPoint/exported-basepoint", d("ristretto operations"), cas, []interface{}{G, s.scs[ai], s.scs[bi]}, func() {
+			checkR(w, "RistrettoPoint.Add/exported-basepoint", func() *curve.RistrettoPoint { return nrr().Add(G, rp(q.P)) }, refgrp.Sum(ref.Base, Q), d("Add(G, q)"), cas)
+			checkR(w, "RistrettoPoint.Add/exported-basepoint", func() *curve.RistrettoPoint { return nrr().Add(rp(q.P), G) }, refgrp.Sum(ref.Base, Q), d("Add(q, G)"), cas)
+			checkR(w, "RistrettoPoint.Add/exported-basepoint", func() *curve.RistrettoPoint { return nrr().Add(G, G) }, refgrp.Sum(ref.Base, ref.Base), d("Add(G, G)"), cas)
+			checkR(w, "RistrettoPoint.Sub/exported-basepoint", func() *curve.RistrettoPoint { return nrr().Sub(rp(q.P), G) }, refgrp.Sum(Q, ref.Base.Neg()), d("Sub(q, G)"), cas)
+			checkR(w, "RistrettoPoint.Neg/exported-basepoint", func() *curve.RistrettoPoint { return nrr().Neg(G) }, ref.Base.Neg(), d("Neg(G)"), cas)
+			checkR(w, "RistrettoPoint.Sum/exported-basepoint", func() *curve.RistrettoPoint { return nrr().Sum([]*curve.RistrettoPoint{G, rp(q.P), G}) }, refgrp.Sum(ref.Base, Q, ref.Base), d("Sum(G, q, G)"), cas)
+			aG, bB, bQ := s.refMul(s.baseIdx, ai), s.refMul(s.baseIdx, bi), s.refMul(q.e, bi)
+			checkR(w, "RistrettoPoint.Mul/exported-basepoint", func() *curve.RistrettoPoint { return nrr().Mul(G, s.scs[ai]) }, aG, d("Mul(G, a)"), cas)
+			checkR(w, "RistrettoPoint.DoubleScalarMulBasepointVartime/exported-basepoint", func() *curve.RistrettoPoint { return nrr().DoubleScalarMulBasepointVartime(s.scs[ai], G, s.scs[bi]) }, refgrp.Sum(aG, bB), d("DoubleScalarMulBasepointVartime(a, G, b)"), cas)
+			checkR(w, "RistrettoPoint.ExpandedDoubleScalarMulBasepointVartime/exported-basepoint", func() *curve.RistrettoPoint {
+				return nrr().ExpandedDoubleScalarMulBasepointVartime(s.scs[ai], curve.NewExpandedRistrettoPoint(G), s.scs[bi])
+			}, refgrp.Sum(aG, bB), d("ExpandedDoubleScalarMulBasepointVartime(a, expanded G, b)"), cas)
+			sc2 := []*scalar.Scalar{s.scs[ai], s.scs[bi]}
+			pt2 := []*curve.RistrettoPoint{G, rp(q.P)}
+			checkR(w, "RistrettoPoint.MultiscalarMul/exported-basepoint", func() *curve.RistrettoPoint { return nrr().MultiscalarMul(sc2, pt2) }, refgrp.Sum(aG, bQ), d("MultiscalarMul"), cas)
+			checkR(w, "RistrettoPoint.MultiscalarMulVartime/exported-basepoint", func() *curve.RistrettoPoint { return nrr().MultiscalarMulVartime(sc2, pt2) }, refgrp.Sum(aG, bQ), d("MultiscalarMulVartime"), cas)
+			checkR(w, "RistrettoPoint.MulBasepoint/exported-basepoint", func() *curve.RistrettoPoint {
+				return nrr().MulBasepoint(curve.NewRistrettoBasepointTable(G), s.scs[ai])
+			}, aG, d("MulBasepoint(NewRistrettoBasepointTable(G), a)"), cas)
+			try(w, "RistrettoPoint.Equal/exported-basepoint", cas, func() {
+				if got, want := G.Equal(rp(q.P)) == 1, ref.RistrettoEqual(ref.Base, Q); got != want {
+					w.Fail("RistrettoPoint.Equal/exported-basepoint", d(fmt.Sprintf("Equal = %v", got))(), cas)
+				}
+			})
+		})
+		w.Eval("exported-objects/ristretto-basepoint", true)
+	})
+	lap("exported-ristretto-basepoint")
 	s.msmSpecial(c, evenPts)
 	lap("msm-special")
 	s.reuse(c)
